@@ -79,6 +79,9 @@ RefRouterInfo(b) ==
                  ELSE LET se == as.end + 1 + m.consumed
                           sl == SigLen(id.st) IN
                       [ok |-> peers = 0 /\ Len(b) >= se + sl, short |-> Len(b) < se + sl, consumed |-> se + sl, id |-> id,
+                       \* laidOut: the layout the library uses whatever the peer_size byte says (named deviation PeerHashesNotParsed:
+                       \* peer_size is read and kept, the peer hashes it announces are never parsed)
+                       laidOut |-> Len(b) >= se + sl, peerOff |-> as.end,
                        pubOff |-> p, naddr |-> na, addrStarts |-> as.starts, addrEnd |-> as.end, optOff |-> as.end + 1,
                        optPairs |-> m.pairs, sigOff |-> se]
 
